@@ -14,6 +14,7 @@ from __future__ import annotations
 import ast
 import collections.abc
 import enum
+import itertools
 import math
 import re
 import numbers
@@ -100,6 +101,65 @@ class Obj:
         return f"<{self.label}>"
 
 
+class ProtoObj(Obj):
+    """An instantiated class of the analysed package that implements container protocols: python's
+    own operators and builtins (len, in, iter, set(), zip, ==) reach the interpreted methods."""
+
+    def __len__(self):
+        if "__len__" not in self.methods:
+            raise TypeError(f"object of type {self.label} has no len()")
+        return self.methods["__len__"]()
+
+    def __iter__(self):
+        if "__iter__" in self.methods:
+            return iter(self.methods["__iter__"]())
+        raise TypeError(f"{self.label} object is not iterable")
+
+    def __contains__(self, item):
+        if "__contains__" in self.methods:
+            return bool(self.methods["__contains__"](item))
+        return any(x is item or x == item for x in self)
+
+    def __reversed__(self):
+        if "__reversed__" in self.methods:
+            return iter(self.methods["__reversed__"]())
+        return iter(list(self)[::-1])
+
+    def __getitem__(self, index):
+        if "__getitem__" not in self.methods:
+            raise TypeError(f"{self.label} object is not subscriptable")
+        try:
+            return self.methods["__getitem__"](index)
+        except Raises as exc:
+            if exc.name in ("IndexError", "KeyError", "StopIteration"):
+                raise {"IndexError": IndexError, "KeyError": KeyError, "StopIteration": StopIteration}[exc.name](exc.detail) from None
+            raise
+
+    def __eq__(self, other):
+        if "__eq__" in self.methods:
+            return self.methods["__eq__"](other)
+        return self is other
+
+    def __ne__(self, other):
+        r = self.__eq__(other)
+        return r if r is NotImplemented else not r
+
+    def __hash__(self):
+        if "__hash__" in self.methods:
+            return self.methods["__hash__"]()
+        return id(self)
+
+    def __bool__(self):
+        if "__bool__" in self.methods:
+            return bool(self.methods["__bool__"]())
+        if "__len__" in self.methods:
+            return len(self) > 0
+        return True
+
+
+_PROTOCOL_DUNDERS = ("__iter__", "__len__", "__contains__", "__getitem__")
+
+
 class ClassRef:
     """Reference to a class of the analysed package (used in isinstance tests and for instantiation)."""
 
@@ -175,7 +235,7 @@ TYPES = {
     "list": list, "tuple": tuple, "set": set, "frozenset": frozenset, "dict": dict, "type": type, "object": object,
     "numbers.Number": numbers.Number, "Number": numbers.Number, "numbers.Real": numbers.Real, "numbers.Integral": numbers.Integral,
     "Sized": collections.abc.Sized, "Iterable": collections.abc.Iterable, "Iterator": collections.abc.Iterator, "Sequence": collections.abc.Sequence, "Mapping": collections.abc.Mapping,
-    "Collection": collections.abc.Collection, "Hashable": collections.abc.Hashable,
+    "Collection": collections.abc.Collection, "Hashable": collections.abc.Hashable, "slice": slice, "AbstractSet": collections.abc.Set, "MutableSet": collections.abc.MutableSet,
     "BaseException": BaseException, "Exception": Exception, "NoneType": type(None), "enum.Enum": enum.Enum, "Enum": enum.Enum,
     "GeneratorType": types.GeneratorType, "types.GeneratorType": types.GeneratorType, "Generator": collections.abc.Generator, "Container": collections.abc.Container,
     "Reversible": collections.abc.Reversible, "MutableSequence": collections.abc.MutableSequence, "MutableMapping": collections.abc.MutableMapping, "Set": collections.abc.Set,
@@ -189,11 +249,11 @@ PURE = {
     "math.floor": math.floor, "math.ceil": math.ceil, "math.isinf": math.isinf, "math.isnan": math.isnan, "math.isfinite": math.isfinite,
     "math.trunc": math.trunc, "math.copysign": math.copysign, "math.sqrt": math.sqrt, "math.fabs": math.fabs, "math.isclose": math.isclose,
     "math.log": math.log, "math.exp": math.exp, "isclass": lambda x: isinstance(x, type), "inspect.isclass": lambda x: isinstance(x, type),
-    "re.compile": re.compile, "re.fullmatch": re.fullmatch, "re.match": re.match, "re.search": re.search, "issubclass": issubclass, "dir": dir, "map": map, "filter": filter, "reversed": reversed, "iter": iter, "next": next, "dict": dict, "frozenset": frozenset, "getattr": getattr, "hasattr": hasattr, "id": id, "hex": hex,
+    "dict.fromkeys": dict.fromkeys, "itertools.chain": itertools.chain, "itertools.chain.from_iterable": itertools.chain.from_iterable, "set.intersection": set.intersection, "set.union": set.union, "cast": lambda _t, v: v, "typing.cast": lambda _t, v: v, "re.compile": re.compile, "re.fullmatch": re.fullmatch, "re.match": re.match, "re.search": re.search, "issubclass": issubclass, "dir": dir, "map": map, "filter": filter, "reversed": reversed, "iter": iter, "next": next, "dict": dict, "frozenset": frozenset, "getattr": getattr, "hasattr": hasattr, "id": id, "hex": hex,
 }
 import builtins as _builtins  # noqa: E402
 
-CONSTS = {"builtins": _builtins, "inf": math.inf, "math.inf": math.inf, "math.nan": math.nan, "math.pi": math.pi, "sys.float_info.min": sys.float_info.min,
+CONSTS = {"NotImplemented": NotImplemented, "builtins": _builtins, "inf": math.inf, "math.inf": math.inf, "math.nan": math.nan, "math.pi": math.pi, "sys.float_info.min": sys.float_info.min,
           "sys.float_info.max": sys.float_info.max, "sys.float_info.epsilon": sys.float_info.epsilon, "sys.maxsize": sys.maxsize}
 STR_METHODS = {"startswith", "endswith", "lstrip", "rstrip", "strip", "lower", "upper", "split", "rpartition", "partition", "replace", "join",
                "removeprefix", "removesuffix", "decode", "encode", "isdigit", "format", "count", "find", "is_integer", "real", "imag", "hex", "bit_length",
@@ -296,6 +356,8 @@ class Interp:
             if isinstance(base, Term):
                 return base.get(e.attr)
             if isinstance(base, Obj):
+                if e.attr == "__class__" and getattr(base, "mro", None):
+                    return ClassRef(base.label, base.mro)
                 if e.attr in base.props:
                     return base.props[e.attr]()
                 if e.attr in base.fields:
@@ -475,6 +537,18 @@ class Interp:
                 if isinstance(args[0], Obj):
                     return any(isinstance(t, ClassRef) and t.name in args[0].classes for t in typs)
                 return any(isinstance(t, type) and isinstance(args[0], t) for t in typs)
+            if isinstance(args[0], Obj) and any(isinstance(t, type) for t in typs) and getattr(args[0], "mro", None):
+                # stdlib base classes named in the class statements of the MRO (collections.abc.Set as AbstractSet, ...)
+                ext = []
+                for cdef, cmod in args[0].mro:
+                    for b in cdef.bases:
+                        bn = norm(b.value if isinstance(b, ast.Subscript) else b)
+                        target = getattr(cmod, "imports", {}).get(bn.split(".")[0], bn)
+                        real = getattr(collections.abc, target.split(".")[-1], None) if target.startswith("collections.abc") else getattr(_builtins, target, None) if "." not in target else None
+                        if isinstance(real, type):
+                            ext.append(real)
+                if any(isinstance(t, type) and (any(issubclass(x, t) for x in ext) or isinstance(args[0], t)) for t in typs):
+                    return True
             if isinstance(args[0], Obj):
                 return any(isinstance(t, Token) and str(t).split(".")[-1] in args[0].classes for t in typs)
             if isinstance(typ, Token) or (isinstance(typ, tuple) and any(isinstance(t, Token) for t in typ)):
@@ -502,6 +576,8 @@ class Interp:
             if isinstance(recv, Obj):
                 if e.func.attr in recv.methods:
                     return recv.methods[e.func.attr](*args, **kwargs)
+                if e.func.attr == "__class__" and getattr(recv, "mro", None):
+                    return self.instantiate(recv.label, recv.mro, args, kwargs)
                 f_ = recv.fields.get(e.func.attr)
                 if isinstance(f_, Closure):
                     return f_.interp.apply(f_, args, kwargs, mod)
@@ -542,8 +618,13 @@ class Interp:
                 fv = None
             if isinstance(fv, Closure):
                 return fv.interp.apply(fv, args, kwargs, mod)
+            if isinstance(fv, ClassRef):
+                return self.instantiate(fv.name, fv.mro, args, kwargs)
             if callable(fv) and not isinstance(fv, type):
                 return fv(*args, **kwargs)
+        if isinstance(e.func, ast.Name) and isinstance(env.get(e.func.id), ClassRef):
+            fv = env[e.func.id]
+            return self.instantiate(fv.name, fv.mro, args, kwargs)
         raise Undecided(f"call `{name}`")
 
     def instantiate(self, name, mro, args, kwargs, init=True):
@@ -571,6 +652,8 @@ class Interp:
                         obj.fields[st.target.id] = self.ev(st.value, {}, cmod)
                     except Undecided:
                         pass
+        if any(d in obj.methods for d in _PROTOCOL_DUNDERS):
+            obj.__class__ = ProtoObj
         if not init:
             obj.fields.update(kwargs)
             return obj
@@ -762,7 +845,16 @@ class Interp:
         if isinstance(s, ast.For):
             it = self.ev(s.iter, env, mod)
             broke = False
-            for v in _guard(list, it):
+            # containers whose change during iteration python detects are iterated lazily, everything else is materialised
+            lazy = isinstance(it, (dict, set, ProtoObj, type({}.keys()), type({}.values()), type({}.items())))
+            seq = iter(it) if lazy else iter(_guard(list, it))
+            while True:
+                try:
+                    v = next(seq)
+                except StopIteration:
+                    break
+                except RuntimeError as exc:
+                    raise Raises("RuntimeError", str(exc)) from None
                 self._bind(s.target, v, env)
                 try:
                     self.block(s.body, env, mod)
